@@ -28,7 +28,7 @@ func init() {
 			c.runAxisTags("AXIS", c.libPkgs()[1:2], c.fileFilter("model2d/rasterize.go"))
 			c.floor("AXIS", 8)
 			c.runSpawnJoin("SPAWNJOIN", append(c.libPkgs(), c.fixturePkg("w")))
-			c.floor("SPAWNJOIN", 2)
+			c.floor("SPAWNJOIN", 1)
 			c.runConstDiv("CONSTDIV", append(c.libPkgs(), c.fixturePkg("w")))
 			c.floor("CONSTDIV", 0)
 			// pixel vs. model units in the rasteriser (Scale = px/L, LineWidth = px)
